@@ -76,9 +76,11 @@ class VM:
                 args = e.args[0].elts if e.args and isinstance(e.args[0], ast.Tuple) else e.args
                 order = [const_value(x) for x in args] if args else None
                 return self.ev(e.func.value, env).transpose(order)
-            if f == 'np.swapaxes':
-                v = self.ev(e.args[0], env)
-                i, j = const_value(e.args[1]), const_value(e.args[2])
+            if f == 'np.swapaxes' or (isinstance(e.func, ast.Attribute) and e.func.attr == 'swapaxes' and len(e.args) == 2):
+                v = self.ev(e.args[0] if f == 'np.swapaxes' else e.func.value, env)
+                i, j = (const_value(x) for x in e.args[-2:])
+                if not (isinstance(i, int) and isinstance(j, int)):
+                    raise ValueError('expression `%s`' % unparse(e)[:60])
                 order = list(range(v.ndim()))
                 order[i], order[j] = order[j], order[i]
                 return v.transpose(order)
@@ -409,13 +411,19 @@ def run(ctx):
     if isinstance(res, Arr) and isinstance(res.elem, Q):
         ctx.check(res.elem.d() == {'cnt': 2}, 'C15.U2', fr, 'firing_rate dimension', 'counts^2 x (s / s): a pair count per bin', 'the normaliser has dimension %s, expected count^2 (bin / duration is a pure ratio)' % res.elem)
     bcs = PF.stmt('V_bc = np.bincount(E_rel)') or PF.stmt('V_bc = np.bincount(E_rel, REST)')
-    minlen = bcs is not None and q.kwarg(bcs.value, 'minlength') is not None and Pat().any(['len(cluster_ids)', 'cluster_ids.size', 'cluster_ids.shape[0]'], q.kwarg(bcs.value, 'minlength'))
-    pad = [i for i in fr.nodes(ast.If) if PF.m('len(V_bc) < len(cluster_ids)', i.test)]
+    # the list of requested ids = the table the spikes are relabelled against (whatever it is called)
+    rl0 = Pat(fr).stmt('V_rel = _index_of(spike_clusters, E_lookup)')
+    tables = ['cluster_ids'] + ([unparse(rl0.value.args[1])] if rl0 is not None and isinstance(rl0.value.args[1], ast.Name) else [])
+    lens = [f_ % t_ for t_ in tables for f_ in ('len(%s)', '%s.size', '%s.shape[0]')]
+    ml = q.arg(bcs.value, 2, 'minlength') if bcs is not None else None
+    minlen = ml is not None and (Pat().any(lens, ml) or Pat().any(lens, fr.expand(ml, stop=tuple(tables))))
+    ml_other = ml is not None and not minlen
+    pad = [i for i in fr.nodes(ast.If) if any(PF.m('len(V_bc) < %s' % l_, i.test) or PF.m('len(V_bc) < %s' % l_, fr.expand(i.test, stop=(PF.name('V_bc') or '',))) for l_ in lens)]
     okp = bool(pad) and any(isinstance(c, ast.Call) and dotted(c.func) in ('np.concatenate', 'np.pad', 'np.append', 'np.hstack', 'np.r_') for c in ast.walk(pad[0])) and \
         any(isinstance(c, ast.Call) and dotted(c.func) == 'np.zeros' for c in ast.walk(pad[0]))
     if okp or minlen:
         ctx.holds('C15.U2', fr, 'counts of trailing ids without spikes are padded with zeros', pad[0] if pad else bcs)
-    elif bcs is not None and not pad and not minlen and not any(isinstance(c, ast.Call) and dotted(c.func) in ('np.pad', 'np.concatenate') for c in fr.calls()):
+    elif bcs is not None and not pad and not minlen and not ml_other and not any(isinstance(c, ast.Call) and dotted(c.func) in ('np.pad', 'np.concatenate') for c in fr.calls()):
         ctx.violated('C15.U2', fr, bcs, 'np.bincount without padding: when the last requested ids have no spikes the count vector is shorter than the list of ids')
     else:
         ctx.undecided('C15.U2', fr, 'zero padding of the per-cluster counts not recognised')
